@@ -280,6 +280,15 @@ Proof.
     specialize (Ei _ Hr). specialize (Ej _ Hc). nia.
 Qed.
 
+Lemma target_status_T2_meaning r c i j ps :
+  target_status r c (T2 i j) = CValid ps ->
+  exists ri cj, comp_status r i = CValid ri /\ comp_status c j = CValid cj /\
+    forall p, In p ps <-> exists rr cc, In rr ri /\ In cc cj /\ p = cc * r + rr.
+Proof.
+  intro H. apply target_status_T2_valid in H as (ri & cj & Hi & Hj & ->).
+  exists ri, cj. repeat split; auto; apply in_lin2.
+Qed.
+
 (* the surface meaning of the linear positions: 1-based, column-major *)
 Theorem comp_status_scalar n z ps :
   comp_status n (IS z) = CValid ps <-> ((1 <= z <= Z.of_nat n)%Z /\ ps = [Z.to_nat (z - 1)]).
@@ -349,6 +358,7 @@ Proof.
   apply String.eqb_eq in Ek. subst k'.
   destruct (andb (is_set o) _); [discriminate|].
   destruct (andb (negb (is_set o)) (negb (is_numeric k))); [discriminate|].
+  cbn [source_form_soft].
   destruct (target_status (mrows x) (mcols x) t) as [ps| |w]; try discriminate.
   destruct (andb (negb (is_set o)) (negb (nodupb ps))) eqn:En; [discriminate|].
   intro H. apply spec_update_ok in H. exists ps. repeat split; auto.
@@ -402,15 +412,13 @@ Proof.
   apply String.eqb_eq in Ek. subst k'.
   destruct (andb (is_set o) _); [discriminate|].
   destruct (andb (negb (is_set o)) (negb (is_numeric k))); [discriminate|].
+  destruct (source_form_soft t x (SVec k col vs)); [discriminate|].
   destruct (target_status (mrows x) (mcols x) t) as [ps| |w] eqn:Et; try discriminate.
-  destruct t as [|i|i j]; try discriminate;
-    (destruct (Nat.ltb (length vs) 2); [discriminate|]);
-    (destruct (negb (whole_shape_ok _ x col)); [discriminate|]);
-    (destruct (Nat.ltb_spec (length vs) (length ps)) as [Hl1|Hl1]; [discriminate|]);
-    (destruct (Nat.ltb_spec (length ps) (length vs)) as [Hl2|Hl2]; [discriminate|]);
-    (destruct (nodupb ps) eqn:En; cbn [negb]; [|discriminate]);
-    intro Hs; apply spec_update_ok in Hs; exists ps; repeat split; auto; try lia;
-    apply nodupb_NoDup; assumption.
+  destruct (Nat.ltb_spec (length vs) (length ps)) as [Hl1|Hl1]; [discriminate|].
+  destruct (Nat.ltb_spec (length ps) (length vs)) as [Hl2|Hl2]; [discriminate|].
+  destruct (nodupb ps) eqn:En; cbn [negb]; [|discriminate].
+  intro Hs; apply spec_update_ok in Hs; exists ps; repeat split; auto; try lia.
+  apply nodupb_NoDup; assumption.
 Qed.
 
 (* a vector source through distinct positions: the i-th addressed element gets (old op) the i-th source element *)
@@ -473,7 +481,8 @@ Theorem out_of_range_is_error k x o t src :
 Proof.
   intros Hk Ht. unfold spec_step. rewrite Hk, String.eqb_refl. cbn [negb].
   destruct (andb (is_set o) _); [exact I|].
-  destruct (andb (negb (is_set o)) _); [exact I|]. rewrite Ht. exact I.
+  destruct (andb (negb (is_set o)) _); [exact I|].
+  destruct (source_form_soft t x src); [exact I|]. rewrite Ht. exact I.
 Qed.
 
 Theorem wrong_kind_is_error k x o t src :
@@ -575,14 +584,14 @@ Proof.
       * exfalso. destruct (kf_class k x (SAsg op t src)); [|injection E as <- _; exact Hb].
         destruct (mech_step k x (SAsg op t src)) as [[fin pat]|]; [|injection E as <- _; exact Hb].
         destruct (resync o k x); [|injection E as <- _; exact Hb].
-        destruct (andb _ _); injection E as <- _; exact Hb.
+        destruct (andb (if fin then _ else _) _); injection E as <- _; exact Hb.
     + destruct (andb (is_err (so_res o)) (x_is o k (mrows x) (mcols x) (mdata x))) eqn:C.
       * injection E as <- <-. apply andb_prop in C as [C1 C2]. apply x_is_sound in C2.
         rewrite mat_eta in C2. auto.
       * exfalso. destruct (kf_class k x (SAsg op t src)); [|injection E as <- _; exact Hb].
         destruct (mech_step k x (SAsg op t src)) as [[fin pat]|]; [|injection E as <- _; exact Hb].
         destruct (resync o k x); [|injection E as <- _; exact Hb].
-        destruct (andb _ _); injection E as <- _; exact Hb.
+        destruct (andb (if fin then _ else _) _); injection E as <- _; exact Hb.
     + injection E as _ <-. reflexivity.
   - destruct (spec_read x t) as [es|].
     + destruct (x_is o k (mrows x) (mcols x) (mdata x)) eqn:C; cbn [negb] in E.
@@ -642,10 +651,222 @@ Qed.
 
 (* the whole line: an `ok` of the extracted judge means the decoded session satisfies C04_spec *)
 Theorem judge_assign_sound c steps tag :
-  judge_assign (Lx [c; Lx (Ax "session" :: steps)]) = v_ok tag ->
+  judge_assign (session_line c steps) = v_ok tag ->
   exists cs os, decode_case c = Some cs /\ map_opt decode_step steps = Some os /\ C04_spec cs os.
 Proof.
-  cbn [judge_assign]. destruct (decode_case c) as [cs|]; [|discriminate].
+  unfold session_line. cbn [judge_assign]. destruct (decode_case c) as [cs|]; [|discriminate].
   destruct (map_opt decode_step steps) as [os|]; [|discriminate].
   intro H. apply judge_case_sound in H. eauto.
+Qed.
+
+(* ================================================================== *)
+(* 5. the known findings: the faithful model violates the property      *)
+(* ================================================================== *)
+(* [refutes id w]: w lies in class id, and on w the faithful model of mech does not do what the
+   property demands. *)
+Definition refutes (id : String.string) (w : String.string * mat sx * stmt) : Prop :=
+  let '(k, x, s) := w in
+  wf_mat x /\ kf_class k x s = Some id /\
+  match spec_step k x s with
+  | OkNew d => mech_step k x s <> Some (true, map Some d)
+  | MustErr => mech_step k x s <> Some (false, map Some (mdata x))
+  | NotFixed _ => False
+  end.
+
+Ltac show_refutes := unfold refutes; vm_compute; repeat split; discriminate.
+
+Lemma refuted_opassign_scalar : refutes id_opassign_scalar w_opassign_scalar. Proof. show_refutes. Qed.
+Lemma refuted_partial_write : refutes id_partial_write w_partial_write. Proof. show_refutes. Qed.
+Lemma refuted_whole_short : refutes id_whole_short w_whole_short. Proof. show_refutes. Qed.
+Lemma refuted_mask_rows_all : refutes id_mask_rows_all w_mask_rows_all. Proof. show_refutes. Qed.
+Lemma refuted_rows_ignored : refutes id_rows_ignored w_rows_ignored. Proof. show_refutes. Qed.
+Lemma refuted_mask_vector : refutes id_mask_vector w_mask_vector. Proof. show_refutes. Qed.
+Lemma refuted_div_all : refutes id_div_all w_div_all. Proof. show_refutes. Qed.
+Lemma refuted_not_implemented : refutes id_not_implemented w_not_implemented. Proof. show_refutes. Qed.
+
+(* what exactly goes wrong on the witnesses (expected by the property / done by the model of mech) *)
+Lemma witness_values :
+  (let '(k, x, s) := w_opassign_scalar in
+   spec_step k x s = OkNew (zs [6; 2; 3]%Z) /\ mech_step k x s = Some (true, map Some (zs [5; 2; 3]%Z))) /\
+  (let '(k, x, s) := w_partial_write in
+   spec_step k x s = MustErr /\ mech_step k x s = Some (false, map Some (zs [7; 3; 3]%Z))) /\
+  (let '(k, x, s) := w_whole_short in
+   spec_step k x s = MustErr /\ mech_step k x s = Some (true, map Some (zs [10; 10; 10; 9]%Z))) /\
+  (let '(k, x, s) := w_mask_rows_all in
+   spec_step k x s = OkNew (zs [1; 18; 2; 18; 3; 18]%Z) /\
+   mech_step k x s = Some (true, map Some (zs [18; 4; 18; 5; 18; 6]%Z))) /\
+  (let '(k, x, s) := w_mask_vector in
+   spec_step k x s = OkNew (zs [50; 2; 3; 60]%Z) /\ mech_step k x s = Some (false, map Some (zs [50; 2; 3; 4]%Z))) /\
+  (let '(k, x, s) := w_div_all in
+   spec_step k x s = OkNew (zs [4; 3; 4]%Z) /\ mech_step k x s = Some (true, map Some (zs [4; 3; 2]%Z))) /\
+  (let '(k, x, s) := w_not_implemented in
+   spec_step k x s = OkNew (zs [1; 2; 8; 4]%Z) /\ mech_step k x s = Some (false, map Some (zs [1; 2; 3; 4]%Z))).
+Proof. vm_compute. repeat split. Qed.
+
+(* ================================================================== *)
+(* 6. the faithful model of mech: kernel loops                          *)
+(* ================================================================== *)
+Section RunP.
+  Context {A : Type}.
+  Implicit Types (g : option A -> A -> option (option A)) (f : A -> A -> option A).
+
+  Definition pairs (ps : list nat) (vs : list A) : list (option nat * option A) :=
+    map (fun pv => (Some (fst pv), Some (snd pv))) (combine ps vs).
+
+  Lemma upd_nth_map {B C} (h : B -> C) p v (l : list B) : upd_nth p (h v) (map h l) = map h (upd_nth p v l).
+  Proof. revert p; induction l as [|x l IH]; intros [|p]; cbn; auto. f_equal. apply IH. Qed.
+
+  (* a loop whose accesses are all valid does what app_each does *)
+  Lemma run_attempts_ok g f :
+    (forall old v new, f old v = Some new -> g (Some old) v = Some (Some new)) ->
+    forall ps vs d d', app_each f ps vs d = Some d' ->
+      run_attempts g (pairs ps vs) (map Some d) = (true, map Some d').
+  Proof.
+    intros Hgf. induction ps as [|p ps IH]; intros [|v vs] d d' H; cbn in H;
+      try (injection H as <-; reflexivity).
+    destruct (nth_error d p) as [old|] eqn:Hold; [|discriminate].
+    destruct (f old v) as [new|] eqn:Hf; [|discriminate].
+    unfold pairs; cbn [combine map fst snd run_attempts].
+    rewrite nth_error_map, Hold. cbn [option_map]. rewrite (Hgf _ _ _ Hf).
+    rewrite (upd_nth_map Some). apply IH. exact H.
+  Qed.
+
+  (* a loop with an access outside the storage (or a missing source element) panics *)
+  Lemma run_attempts_fail g ats : forall d,
+      (exists a, In a ats /\ (fst a = None \/ snd a = None)) -> fst (run_attempts g ats d) = false.
+  Proof.
+    induction ats as [|[[p|] [v|]] ats IH]; intros d (a & Hin & Hbad); cbn [run_attempts]; try reflexivity.
+    - destruct Hin.
+    - assert (Htail : exists a, In a ats /\ (fst a = None \/ snd a = None)).
+      { destruct Hin as [<-|Hin]; [cbn in Hbad; destruct Hbad; discriminate|eauto]. }
+      destruct (nth_error d p) as [old|]; [|reflexivity].
+      destruct (g old v) as [[new|]|]; try reflexivity; apply IH; assumption.
+  Qed.
+
+  Lemma pairs_repeat ps (e : A) : map (fun p => (p, Some e)) (map Some ps) = pairs ps (repeat e (length ps)).
+  Proof. unfold pairs. induction ps as [|p ps IH]; cbn; [reflexivity|]. f_equal. exact IH. Qed.
+End RunP.
+
+Lemma with_src_pairs e ps : with_src e (map Some ps) = pairs ps (repeat e (length ps)).
+Proof. apply pairs_repeat. Qed.
+
+Lemma zip_src_pairs ps : forall vs0 vs, length ps = length vs ->
+    zip_src (length vs0) (map Some ps) (vs0 ++ vs) = pairs ps vs.
+Proof.
+  unfold pairs. induction ps as [|p ps IH]; intros vs0 [|v vs] Hlen; cbn in Hlen; try discriminate; [reflexivity|].
+  cbn [map zip_src combine fst snd]. f_equal.
+  - f_equal. rewrite nth_error_app2 by lia. rewrite Nat.sub_diag. reflexivity.
+  - replace (vs0 ++ v :: vs) with ((vs0 ++ [v]) ++ vs) by (rewrite <- app_assoc; reflexivity).
+    replace (S (length vs0)) with (length (vs0 ++ [v])) by (rewrite app_length; cbn; lia).
+    apply IH. lia.
+Qed.
+
+Lemma zip_src_pairs0 ps vs : length ps = length vs -> zip_src 0 (map Some ps) vs = pairs ps vs.
+Proof. intro H. exact (zip_src_pairs ps [] vs H). Qed.
+
+Lemma zip_src_In ats : forall i vs j a, nth_error ats j = Some a -> In (a, nth_error vs (i + j)) (zip_src i ats vs).
+Proof.
+  induction ats as [|b ats IH]; intros i vs [|j] a H; cbn in H; try discriminate.
+  - injection H as ->. left. rewrite Nat.add_0_r. reflexivity.
+  - right. replace (i + S j) with (S i + j) by lia. apply IH. exact H.
+Qed.
+
+Lemma zip_src_short ats vs : length vs < length ats ->
+  exists a, In a (zip_src 0 ats vs) /\ (fst a = None \/ snd a = None).
+Proof.
+  intro H. destruct (nth_error ats (length vs)) as [a|] eqn:E.
+  - exists (a, nth_error vs (0 + length vs)). split; [apply zip_src_In; assumption|].
+    right. cbn. apply nth_error_None. lia.
+  - apply nth_error_None in E. lia.
+Qed.
+
+Lemma zip_src_None ats vs : In None ats -> exists a, In a (zip_src 0 ats vs) /\ (fst a = None \/ snd a = None).
+Proof.
+  intro H. apply In_nth_error in H as (j & Hj).
+  exists (None, nth_error vs (0 + j)). split; [apply zip_src_In; assumption|left; reflexivity].
+Qed.
+
+Lemma with_src_None e ats : In None ats -> exists a, In a (with_src e ats) /\ (fst a = None \/ snd a = None).
+Proof. intro H. exists (None, Some e). split; [apply in_map_iff; eauto|left; reflexivity]. Qed.
+
+(* ---------- per dimension: the kernel visits exactly the addressed positions ---------- *)
+Lemma dim_attempts_valid n c ps :
+  comp_status n c = CValid ps -> comp_of c <> CBad -> dim_attempts n (comp_of c) = map Some ps.
+Proof.
+  destruct c as [z|l|a b| |l]; cbn [comp_status comp_of]; intros H Hb.
+  - destruct (chk n z) as [p|] eqn:E; [|discriminate]. injection H as <-. cbn. rewrite E. reflexivity.
+  - destruct (Nat.ltb (length l) 2); [contradiction|].
+    destruct (map_opt (chk n) l) as [qs|] eqn:E; [|discriminate]. injection H as <-. cbn. apply map_opt_map. exact E.
+  - destruct (Z.leb b a); [discriminate|].
+    cbv zeta in Hb |- *. destruct (Nat.ltb (length (range_list a b)) 2); [contradiction|].
+    destruct (map_opt (chk n) (range_list a b)) as [qs|] eqn:E; [|discriminate]. injection H as <-.
+    cbn. apply map_opt_map. exact E.
+  - injection H as <-. reflexivity.
+  - destruct (Nat.ltb (length l) 2); [contradiction|].
+    destruct (Nat.eqb_spec (length l) n) as [E|E]; [|destruct (existsb _ _); discriminate].
+    injection H as <-. cbn. apply map_ext_in. intros p Hp. unfold posn.
+    apply mask_pos_lt in Hp. destruct (Nat.ltb_spec p n); [reflexivity|lia].
+Qed.
+
+Lemma dim_attempts_out n c :
+  comp_status n c = COut -> comp_of c <> CBad -> In None (dim_attempts n (comp_of c)).
+Proof.
+  destruct c as [z|l|a b| |l]; cbn [comp_status comp_of]; intros H Hb.
+  - destruct (chk n z) as [p|] eqn:E; [discriminate|]. cbn. rewrite E. left; reflexivity.
+  - destruct (Nat.ltb (length l) 2); [contradiction|].
+    destruct (map_opt (chk n) l) as [qs|] eqn:E; [discriminate|].
+    apply map_opt_none in E as (z & Hz & Hc). cbn. apply in_map_iff. eauto.
+  - destruct (Z.leb b a); [discriminate|].
+    cbv zeta in Hb |- *. destruct (Nat.ltb (length (range_list a b)) 2); [contradiction|].
+    destruct (map_opt (chk n) (range_list a b)) as [qs|] eqn:E; [discriminate|].
+    apply map_opt_none in E as (z & Hz & Hc). cbn. apply in_map_iff. eauto.
+  - discriminate.
+  - destruct (Nat.ltb (length l) 2); [contradiction|].
+    destruct (Nat.eqb (length l) n); [discriminate|].
+    destruct (existsb (fun p => Nat.leb n p) (mask_pos 0 l)) eqn:E; [|discriminate].
+    apply existsb_exists in E as (p & Hp & Hle). apply Nat.leb_le in Hle.
+    cbn. apply in_map_iff. exists p. split; [|assumption]. unfold posn.
+    destruct (Nat.ltb_spec p n); [lia|reflexivity].
+Qed.
+
+(* ---------- two dimensions ---------- *)
+Definition lin2r (r : nat) (ri cj : list nat) : list nat :=
+  flat_map (fun rr => map (fun cc => cc * r + rr) cj) ri.
+
+Lemma in_lin2r r ri cj p : In p (lin2r r ri cj) <-> exists rr cc, In rr ri /\ In cc cj /\ p = cc * r + rr.
+Proof.
+  unfold lin2r. rewrite in_flat_map. split.
+  - intros (rr & Hr & H). apply in_map_iff in H as (cc & <- & Hc). eauto.
+  - intros (rr & cc & Hr & Hc & ->). exists rr. split; [assumption|]. apply in_map_iff. eauto.
+Qed.
+
+Lemma col_outer_valid r ri cj : col_outer r (map Some ri) (map Some cj) = map Some (lin2 r ri cj).
+Proof.
+  unfold col_outer, lin2. induction cj as [|cc cj IH]; cbn; [reflexivity|].
+  rewrite map_app, IH. f_equal. rewrite !map_map. reflexivity.
+Qed.
+
+Lemma row_outer_valid r ri cj : row_outer r (map Some ri) (map Some cj) = map Some (lin2r r ri cj).
+Proof.
+  unfold row_outer, lin2r. induction ri as [|rr ri IH]; cbn; [reflexivity|].
+  rewrite map_app, IH. f_equal. rewrite !map_map. reflexivity.
+Qed.
+
+Lemma col_outer_None r ra ca :
+  (In None ra /\ ca <> []) \/ (In None ca /\ ra <> []) -> In None (col_outer r ra ca).
+Proof.
+  unfold col_outer. intros [[H Hne]|[H Hne]]; apply in_flat_map.
+  - destruct ca as [|b ca]; [congruence|]. exists b. split; [left; reflexivity|].
+    apply in_map_iff. exists None. split; [reflexivity|assumption].
+  - exists None. split; [assumption|]. destruct ra as [|a ra]; [congruence|].
+    left. destruct a; reflexivity.
+Qed.
+
+Lemma row_outer_None r ra ca :
+  (In None ra /\ ca <> []) \/ (In None ca /\ ra <> []) -> In None (row_outer r ra ca).
+Proof.
+  unfold row_outer. intros [[H Hne]|[H Hne]]; apply in_flat_map.
+  - exists None. split; [assumption|]. destruct ca as [|b ca]; [congruence|]. left. reflexivity.
+  - destruct ra as [|a ra]; [congruence|]. exists a. split; [left; reflexivity|].
+    apply in_map_iff. exists None. split; [destruct a; reflexivity|assumption].
 Qed.
